@@ -633,12 +633,12 @@ func (fc *FnCtx) strSort() string {
 	if !fc.declared["Str"] {
 		fc.declared["Str"] = true
 		fc.addPre("(declare-sort Str 0)")
-		fc.addPre(fmt.Sprintf("(declare-fun str.len (Str) %s)", fc.I()))
-		fc.addPre(fmt.Sprintf("(declare-fun str.at (Str %s) (_ BitVec 8))", fc.I()))
+		fc.addPre(fmt.Sprintf("(declare-fun gs.len (Str) %s)", fc.I()))
+		fc.addPre(fmt.Sprintf("(declare-fun gs.at (Str %s) (_ BitVec 8))", fc.I()))
 		if fc.idxBV() {
-			fc.addAxiom("str.len", "(assert (forall ((s Str)) (! (bvsge (str.len s) (_ bv0 64)) :pattern ((str.len s)))))")
+			fc.addAxiom("gs.len", "(assert (forall ((s Str)) (! (bvsge (gs.len s) (_ bv0 64)) :pattern ((gs.len s)))))")
 		} else {
-			fc.addAxiom("str.len", "(assert (forall ((s Str)) (! (>= (str.len s) 0) :pattern ((str.len s)))))")
+			fc.addAxiom("gs.len", "(assert (forall ((s Str)) (! (>= (gs.len s) 0) :pattern ((gs.len s)))))")
 		}
 	}
 	return "Str"
